@@ -194,7 +194,48 @@ def full_all_case(src, idx, seed):
     return recipe, problems, stat
 
 
+def trailing_hole_case(src, idx, seed):
+    """the bytes behind the last non-zero metadata block are an exact multiple of 1 MiB (the raw writer's sparse-run threshold)"""
+    T = lambda p: os.path.join(src, p)
+    env = e2v.tool_env(src)
+    bs, opts, n0 = [(1024, ["-t", "ext2", "-b", "1024", "-N", "4096"], 17000), (4096, ["-t", "ext4", "-b", "4096", "-O", "^has_journal", "-N", "2048"], 40000),
+                    (1024, ["-t", "ext3", "-b", "1024", "-N", "1024"], 20000), (2048, ["-t", "ext2", "-b", "2048", "-N", "2048"], 33000)][idx % 4]
+    img = os.path.join(WORK, "th_%d.img" % idx)
+    raw = os.path.join(WORK, "th_%d.raw" % idx)
+    per_mib = (1 << 20) // bs
+    recipe = {"kind": "trailing hole of whole MiB", "mke2fs": opts, "case_index": 200000 + idx}
+    problems, n, want = [], n0, None
+    for attempt in range(4):
+        for p_ in (img, raw):
+            if os.path.exists(p_):
+                os.unlink(p_)
+        rc, out = e2v.sh([T("misc/mke2fs"), "-q", "-F"] + opts + [img, str(n)], env=env, timeout=120)
+        e2v.sh([T("debugfs/debugfs"), "-w", "-R", "mkdir d", img], env=env, timeout=60)
+        rc, out = e2v.sh([T("misc/e2image"), "-r", img, raw], env=env, timeout=300)
+        if rc != 0:
+            return recipe, ["e2image -r exits %d" % rc], {}
+        d = open(raw, "rb").read()
+        last = max((b for b in range(len(d) // bs) if d[b * bs:(b + 1) * bs].strip(b"\0")), default=0)
+        hole = n - (last + 1)
+        recipe.update({"blocks": n, "last_nonzero_block": last, "trailing_hole_blocks": hole})
+        if hole > 0 and hole % per_mib == 0:
+            break
+        n = last + 1 + per_mib * max(1, round(hole / per_mib))
+    fs = Fs(img)
+    if os.path.getsize(raw) != fs.blocks_count * bs:
+        problems.append("raw image is %d bytes, the filesystem %d (trailing hole of %d blocks)" % (os.path.getsize(raw), fs.blocks_count * bs, recipe.get("trailing_hole_blocks", -1)))
+    rc, out = e2v.sh([T("e2fsck/e2fsck"), "-fn", raw], env=env, timeout=300)
+    if rc != 0:
+        problems.append("e2fsck -fn on the raw image exits %d: %s" % (rc, out[-200:].replace("\n", " | ")))
+    for p_ in (img, raw):
+        if os.path.exists(p_):
+            os.unlink(p_)
+    return recipe, problems, {"trailing_hole_exact": 1 if recipe.get("trailing_hole_blocks", 1) % per_mib == 0 else 0}
+
+
 def one_case(src, mexe, idx, seed, tier):
+    if idx >= 200000:
+        return trailing_hole_case(src, idx - 200000, seed)
     if idx >= 100000:
         return full_all_case(src, idx - 100000, seed)
     r = e2v.rng(seed, "c19", idx)
@@ -307,6 +348,8 @@ def one_case(src, mexe, idx, seed, tier):
         n = max(len(raw), len(raw2))
         if raw.ljust(n, b"\0") != raw2.ljust(n, b"\0"):
             problems.append("raw image made from the qcow2 image differs from the direct raw image")
+        if len(raw) != fs.blocks_count * bs or len(raw2) != fs.blocks_count * bs:
+            problems.append("raw images are %d / %d bytes, the filesystem %d" % (len(raw), len(raw2), fs.blocks_count * bs))
     # ---- -ra: everything in use
     rawall = open(outs["rawall"], "rb").read()
     try:
@@ -337,11 +380,11 @@ def run(res, replay=None):
                           "-I (install image), -b/-B (superblock options) and bigalloc/inline_data sources are outside the campaign"]
     n = 7 if tier == "quick" else 245
     nfull = 2 if tier == "quick" else 12
-    idxs = [json.load(open(replay))["recipe"]["case_index"]] if replay else list(range(n)) + [100000 + i for i in range(nfull)]
+    idxs = [json.load(open(replay))["recipe"]["case_index"]] if replay else list(range(n)) + [100000 + i for i in range(nfull)] + [200000 + i for i in range(2 if tier == "quick" else 8)]
     with concurrent.futures.ThreadPoolExecutor(6) as ex:
         outs = list(ex.map(lambda i: one_case(src, mexe, i, seed, tier), idxs))
     bad = []
-    tot = {"metadata_blocks": 0, "qcow_mapped": 0, "index_samples": 0, "writer_tables": 0}
+    tot = {"metadata_blocks": 0, "qcow_mapped": 0, "index_samples": 0, "writer_tables": 0, "trailing_hole_exact": 0}
     for recipe, problems, stat in outs:
         res.case(json.dumps(recipe), True)
         for k in tot:
